@@ -68,6 +68,10 @@ class Doc:
         return el.name if self.is_xml else ascii_lower(el.name)
 
 
+class NotJudged(Exception):
+    pass
+
+
 def is_text(n):
     return isinstance(n, bs4.element.NavigableString) and not isinstance(
         n, (bs4.Comment, bs4.Declaration, bs4.CData, bs4.ProcessingInstruction, bs4.Doctype))
@@ -310,6 +314,16 @@ def pseudo_matches(D, el, ps, scope):
                 if complex_matches_anchored(D, c, cx, scope, el, comb):
                     return True
         return False
+    if k == 'lang':
+        lang, judged = language_of(D, el)
+        if not judged:
+            raise NotJudged()
+        if lang is None:
+            return False
+        rs = [rfc4647_extended(r, lang) for r in ps[1]]
+        if any(x is None for x in rs):
+            raise NotJudged()
+        return any(rs)
     if k == 'contains':
         _, own, texts = ps
         if own:
@@ -425,3 +439,89 @@ def select(D, target, sl):
     """All element descendants of target (document order) matching sl; scope = target (root when document)."""
     scope = D.root if isinstance(target, bs4.BeautifulSoup) else target
     return [e for e in target.find_all(True) if list_matches(D, e, sl, scope, True)]
+
+
+# ------------------------------------------------------------------ language (C13)
+def _is_iframe(D, e):
+    nm = e.name if D.is_xml else ascii_lower(e.name)
+    return nm == 'iframe' and D.el_ns(e) == XHTML
+
+
+def own_lang(D, el):
+    """The language attribute value carried by el itself (None if it has none)."""
+    html_like = (not D.ns_aware) or el.namespace == XHTML
+    for ns, ln, full, v in attr_items(el):
+        if html_like:
+            if (full if D.is_xml else ascii_lower(full)) == 'lang':
+                return norm_value(v)
+        else:
+            if ns == XMLNS and ln is not None and (ln if D.is_xml else ascii_lower(ln)) == 'lang':
+                return norm_value(v)
+    return None
+
+
+def language_of(D, el):
+    """-> (language or None, judged: bool).  judged=False where the property text leaves the answer open
+    (meta fallback inside a nested iframe document or in an XML document)."""
+    e = el
+    top = None
+    while e is not None and isinstance(e, bs4.Tag) and not isinstance(e, bs4.BeautifulSoup):
+        v = own_lang(D, e)
+        if v is not None:
+            return v, True
+        p = e.parent
+        top = e
+        if p is not None and isinstance(p, bs4.Tag) and not isinstance(p, bs4.BeautifulSoup) and D.is_html and _is_iframe(D, p):
+            # document nested in an iframe: its own <meta> would be the fallback; not judged
+            return None, not any(True for m in e.find_all('meta'))
+        e = p
+    if D.is_xml:
+        has_meta = any(ascii_lower(m.name) == 'meta' for m in D.doc.find_all(True))
+        return None, not has_meta
+    if not D.is_docobj:
+        return None, not any(True for m in D.doc.find_all('meta'))
+    # HTML: <meta http-equiv="content-language" content="..."> in <head> of <html>
+    html = next((c for c in D.doc.contents if isinstance(c, bs4.Tag) and ascii_lower(c.name) == 'html' and D.el_ns(c) == XHTML), None)
+    if html is None:
+        return None, True
+    head = next((c for c in html.contents if isinstance(c, bs4.Tag) and ascii_lower(c.name) == 'head' and D.el_ns(c) == XHTML), None)
+    if head is None:
+        return None, True
+    for m in head.contents:
+        if isinstance(m, bs4.Tag) and ascii_lower(m.name) == 'meta':
+            he = content = None
+            for k, v in m.attrs.items():
+                if ascii_lower(str(k)) == 'http-equiv':
+                    he = norm_value(v)
+                if ascii_lower(str(k)) == 'content':
+                    content = norm_value(v)
+            if he is not None and ascii_lower(he) == 'content-language' and content:
+                return content, True
+    return None, True
+
+
+def rfc4647_extended(rng, tag):
+    """RFC 4647 section 3.3.2, with the two conventions of the property text for '' and '*'."""
+    if rng == '' or tag == '':
+        return rng == '' and tag == ''
+    r = [x.lower() for x in rng.split('-')]
+    t = [x.lower() for x in tag.split('-')]
+    if '' in r or '' in t:
+        return None                      # malformed range or tag (an empty subtag): not judged
+    if r[0] != '*' and r[0] != t[0]:
+        return False
+    ri, ti = 1, 1
+    while ri < len(r):
+        if r[ri] == '*':
+            ri += 1
+            continue
+        if ti >= len(t):
+            return False
+        if t[ti] == r[ri]:
+            ri += 1
+            ti += 1
+        elif len(t[ti]) == 1:
+            return False
+        else:
+            ti += 1
+    return True
